@@ -84,18 +84,28 @@ PROPS = {
         kani_groups=[],
         design_ref='DESIGN.md section 5 / C16',
         technique='Verus contracts on the real lexer (Lex::new, peek_char, take_char, skip_line, last_substr, next, next_nonws) over a character-level '
-                  'model of the source text (text = Seq<char>, positions = byte offsets, every cursor on a character boundary); '
-                  'BitvecBuilder::append_bit/finish (the bit-literal builder) in unit bitstr',
-        level_text='Partial (first half of the property). Proved for EVERY text (any UTF-8, any length): each call of next terminates (every loop has a decreasing '
+                  'model of the source text (text = Seq<char>, positions = byte offsets, every cursor on a character boundary), with the value of every literal '
+                  'stated as a spec function of the token characters; BitvecBuilder::append_bit/finish (the bit-literal builder) and the bit-string printer '
+                  '(the Cell::Bitstr arm of fmt::Debug for Cell, lifted by rule Rarm) in unit bitstr; closing lemma print-then-read over the two contracts',
+        level_text='Proved for EVERY text (any UTF-8, any length): each call of next terminates (every loop has a decreasing '
                    'measure: the bytes left), the token starts exactly where the previous one ended, both cursors stay on character boundaries inside the '
                    'text, a token other than end-of-input consumes at least one character and end-of-input is reported only at the end of the text and '
                    'consumes nothing - so the token loop of every caller terminates and the token texts, concatenated in order, are the input up to the '
                    'first error; Whitespace / Word / Comment tokens carry exactly the bytes between the two cursors; no slice of the text is ever taken off '
-                   'a character boundary or past the end (no panic). The bit-literal builder denotes exactly the appended bits (unit bitstr).',
-        level_note='Assumed (dependency contracts): str slicing + chars().next() yields the character at a boundary offset, arcstr substr, char::len_utf8 (vstd). '
-                   'NOT decided (second half): the VALUES of literals - integer / real parsing (from_str_radix, str::parse), string escapes and the print/read-back '
-                   'round trip are std calls and fmt code outside the dialect; which characters go into the digit buffer is verified only as far as the cursor moves.',
-        not_decided=['values of integer / real / string literals', 'print / read-back round trip', 'XstrLines'],
+                   'a character boundary or past the end (no panic). Literals are read as written (postconditions lit_ok / lit_err of Lex::next): a bit-string '
+                   'literal denotes exactly its hex digits (four bits each, most significant first) and x/. bits; a string literal the characters between the '
+                   'quotes with the documented escapes decoded and any other escape refused; a number is [sign] digits with an optional 0x / 0b prefix, the `_` '
+                   'separators removed, radix 16 / 2 for the prefixes, 16 for any other leading zero, 10 otherwise, its value the mathematical value of those digits '
+                   '(rejected exactly when there is none in the 128-bit range); a token with a `.` is the real std converts the same characters to, and a radix '
+                   'prefix on a real is refused. Printing: unless elided to fit the screen, the printer of bit-strings writes `|`, characters that denote exactly '
+                   'the bits of the value, `|` - and (lemma) Lex::next reads that text back as one literal with exactly those bits.',
+        level_note='Assumed (dependency contracts): str slicing + chars().next() yields the character at a boundary offset, arcstr substr, char::len_utf8 (vstd); '
+                   'char::to_digit(16) / is_ascii_digit / is_ascii_whitespace as their spec functions, i128::from_str_radix = the mathematical value of [sign] digits '
+                   '(None when empty, a wrong digit, out of range), str::parse::<f64> = an uninterpreted function of the characters, ArcStr::from(&String) keeps the '
+                   'characters; fmt::Formatter is a character sink (write_str / write_char append their argument, `{:X}` of a value < 16 appends its hex digit); '
+                   'the length preconditions of the bit-literal builder (< 2^64 - 8 bits) are not carried into the lexer. '
+                   'NOT decided: print/read-back of integers (std Display), strings ({:?}), vectors and maps (recursive fmt through dyn Formatter).',
+        not_decided=['print / read-back of integers, strings, vectors and maps', 'XstrLines'],
     ),
     'C18': dict(
         title='Text encodings of binary data round-trip',
